@@ -1,5 +1,6 @@
 """C01 pairwise alignment — clauses decided: SR-1 (clip penalties restored / mode table), EF side condition,
 RI-1 (scratch buffers re-initialised per call), TB-1 (traceback move-code labelling)."""
+import re
 from . import eng_sr, effects
 from .mirlib import short
 
@@ -254,16 +255,39 @@ def tb1(facts, rep, rule, body_path):
                 if d in ('TB_MATCH', 'TB_SUBST') and 'pj' not in s['p']:
                     sel.setdefault(d, []).append((bb, s['p']['l']))
     key = body_path + '|match-subst-by-symbol-equality'
+    # the symbol comparison: an (in)equality test of two symbol-typed values, one derived only from x, the other only
+    # from y (data-flow provenance, so indexing, iterators, zip, windows ... are all accepted)
     eqg = []
+    roots = b.param_roots()
+    sym_ty = None
+    for cand in (2, 3):
+        m = re.match(r"&(?:'\w+ )?\[(\w+)\]", b.locals[cand]['ty'])
+        if m:
+            sym_ty = m.group(1)
     for g in eng_gd.guards(b):
-        e = strip(g['expr'])
-        if e[0] == 'bin' and e[1] in ('Eq', 'Ne'):
-            l2 = any(isinstance(x, tuple) and x[0] == 'local' and x[1] == 2 for x in walk(e[2])) and \
-                any(isinstance(x, tuple) and x[0] == 'local' and x[1] == 3 for x in walk(e[3]))
-            l3 = any(isinstance(x, tuple) and x[0] == 'local' and x[1] == 3 for x in walk(e[2])) and \
-                any(isinstance(x, tuple) and x[0] == 'local' and x[1] == 2 for x in walk(e[3]))
-            if (l2 or l3) and all(any(isinstance(x, tuple) and x[0] == 'index' for x in walk(z)) for z in (e[2], e[3])):
-                eqg.append((g, e[1] == 'Eq'))
+        t = b.term(g['bb'])
+        pl = t['d'].get('c') or t['d'].get('m')
+        if pl is None or 'pj' in pl:
+            continue
+        sd = b.single_def(pl['l'])
+        cur, neg = sd, False
+        # look through `Not`
+        while cur is not None and cur[0] == 'stmt' and cur[3]['r']['k'] == 'un' and cur[3]['r'].get('op') == 'Not':
+            q = cur[3]['r']['a'].get('c') or cur[3]['r']['a'].get('m')
+            cur = b.single_def(q['l']) if q is not None and 'pj' not in q else None
+            neg = not neg
+        if cur is None or cur[0] != 'stmt' or cur[3]['r']['k'] != 'bin' or cur[3]['r']['op'] not in ('Eq', 'Ne'):
+            continue
+        ops = [cur[3]['r']['a'], cur[3]['r']['b']]
+        ls = [(o.get('c') or o.get('m')) for o in ops]
+        if any(q is None or 'pj' in q for q in ls):
+            continue
+        if sym_ty is not None and any(b.locals[q['l']]['ty'] != sym_ty for q in ls):
+            continue
+        ra, rb = roots[ls[0]['l']] & {2, 3}, roots[ls[1]['l']] & {2, 3}
+        if (ra, rb) in (({2}, {3}), ({3}, {2})):
+            iseq = (cur[3]['r']['op'] == 'Eq') != neg
+            eqg.append((g, iseq))
     if len(sel.get('TB_MATCH', [])) != 1 or len(sel.get('TB_SUBST', [])) != 1 or len(eqg) != 1:
         rep.bad(rule, key, '%s:%s' % (b.file, b.line), 'expected one TB_MATCH and one TB_SUBST selection under one x[i-1] == y[j-1] '
                                                        'test (found %d/%d selections, %d symbol comparisons)' % (
